@@ -263,7 +263,8 @@ func TestC09Chains(t *testing.T) {
 	pki := newC09PKI(rng.Fork("pki"))
 	ctx, cancel := context.WithCancel(context.Background())
 	defer cancel()
-	go li.Log.RunSequencer(ctx, 3*time.Millisecond)
+	seqStopped := make(chan struct{})
+	go func() { defer close(seqStopped); li.Log.RunSequencer(ctx, 3*time.Millisecond) }()
 	h := li.Log.Handler()
 	do := func(method, path string, body []byte) *httptest.ResponseRecorder {
 		req := httptest.NewRequest(method, path, bytes.NewReader(body))
@@ -450,7 +451,11 @@ func TestC09Chains(t *testing.T) {
 	}
 	checkRoots("at the end")
 	cancel()
-	time.Sleep(10 * time.Millisecond)
+	select { // the cache is closed only once the sequencer loop has returned
+	case <-seqStopped:
+	case <-time.After(60 * time.Second):
+		r.Inconcl("sequencer loop did not return after cancellation")
+	}
 	li.Abandon()
 	env.FinalChecks()
 	if accepted == 0 {
